@@ -75,3 +75,54 @@ def shared_mutable_state(mi, classes=None):
         if isinstance(node, ast.Global):
             out.append("line %d: global %s" % (node.lineno, ", ".join(node.names)))
     return sorted(set(out))
+
+
+# ------------------------------------------------------------------------------------------------ writes to `self`
+SELF_MUTATORS = MUTATORS | {"add", "discard", "setdefault", "popitem", "sort", "reverse", "__setitem__", "__delitem__", "appendleft"} \
+    if isinstance(MUTATORS, (set, frozenset)) else set(MUTATORS) | {"add", "discard", "setdefault", "popitem", "sort", "reverse"}
+
+
+def self_writes(fn):
+    """-> list of findings: statements of method `fn` that store into the receiver - an attribute of `self`, an item or
+    attribute of something reached from `self`, a mutating call on such an object, setattr(self, ...), self.__dict__.
+    (Objects reached through a call result are not followed: `self.config.dispatcher.dispatch(...)` is a call, not a store.)"""
+    out = []
+    args = fn.args.args
+    if not args:
+        return out
+    me = args[0].arg
+
+    def rooted(x):
+        """the expression is `self` or an attribute / item chain starting at it (no call in between)"""
+        while isinstance(x, (ast.Attribute, ast.Subscript)):
+            x = x.value
+        return isinstance(x, ast.Name) and x.id == me
+
+    aliases = set()
+    for n in ast.walk(fn):
+        if isinstance(n, ast.Assign) and len(n.targets) == 1 and isinstance(n.targets[0], ast.Name) \
+                and isinstance(n.value, (ast.Attribute, ast.Subscript)) and rooted(n.value):
+            aliases.add(n.targets[0].id)
+    for n in ast.walk(fn):
+        tg = []
+        if isinstance(n, (ast.Assign, ast.Delete)):
+            tg = n.targets
+        elif isinstance(n, (ast.AugAssign, ast.AnnAssign)):
+            tg = [n.target]
+        for t in tg:
+            for e in (t.elts if isinstance(t, (ast.Tuple, ast.List)) else [t]):
+                if isinstance(e, (ast.Attribute, ast.Subscript)) and rooted(e.value):
+                    out.append("line %d stores into %s" % (n.lineno, ast.unparse(e)))
+                elif isinstance(e, ast.Subscript) and isinstance(e.value, ast.Name) and e.value.id in aliases:
+                    out.append("line %d stores into %s (an object of the receiver)" % (n.lineno, ast.unparse(e)))
+        if isinstance(n, ast.Call):
+            f = n.func
+            if isinstance(f, ast.Attribute) and f.attr in SELF_MUTATORS and (
+                    (isinstance(f.value, (ast.Attribute, ast.Subscript)) and rooted(f.value))
+                    or (isinstance(f.value, ast.Name) and f.value.id in aliases)):
+                out.append("line %d calls %s on %s" % (n.lineno, f.attr, ast.unparse(f.value)))
+            if isinstance(f, ast.Name) and f.id in ("setattr", "delattr") and n.args and isinstance(n.args[0], ast.Name) and n.args[0].id == me:
+                out.append("line %d calls %s on the receiver" % (n.lineno, f.id))
+        if isinstance(n, ast.Attribute) and n.attr == "__dict__" and isinstance(n.value, ast.Name) and n.value.id == me:
+            out.append("line %d uses the attribute dictionary of the receiver" % n.lineno)
+    return out
